@@ -583,6 +583,41 @@ func closedOnCancelAt(j *CtxJudge, r *Resolver, p *Prog, fn *ssa.Function, rd ss
 	if mk.Parent() != fn {
 		fn, at = mk.Parent(), mk
 	}
+	// the reader keeps reading that file: it is not re-pointed (Reset) at
+	// another one, which the closing goroutine would not know about
+	fcell := cellOf(NewResolver(p), fileArg)
+	for _, f2 := range p.AllRepoFuncs() {
+		if FuncPkgPath(f2) != FuncPkgPath(mk.Parent()) {
+			continue
+		}
+		bad := ""
+		allInstrs(f2, func(in ssa.Instruction) {
+			cl, ok := in.(*ssa.Call)
+			if !ok {
+				return
+			}
+			sc := staticCallee(cl.Common())
+			if sc == nil || sc.String() != "(*bufio.Reader).Reset" || len(cl.Call.Args) != 2 {
+				return
+			}
+			ro2 := NewResolver(p).Of(cl.Call.Args[0])
+			same := false
+			for _, a := range ro2.Alts() {
+				if a.K == "call" && a.V == ssa.Value(mk) {
+					same = true
+				}
+			}
+			if !same {
+				return
+			}
+			if c2 := cellOf(NewResolver(p), cl.Call.Args[1]); c2 == nil || c2 != fcell {
+				bad = p.InstrPos(in)
+			}
+		})
+		if bad != "" {
+			return false, "the reader is re-pointed (Reset at " + bad + ") at another file than the one the cancellation goroutine closes: after that, cancellation no longer interrupts a pending read on an idle pipe"
+		}
+	}
 	return fileClosedOnCancel(j, p, fn, fileArg, at, 0)
 }
 
